@@ -7,6 +7,7 @@ import (
 	"bufio"
 	"bytes"
 	"context"
+	"github.com/hashicorp/go-plugin/internal/verifhook"
 	"io"
 
 	empty "github.com/golang/protobuf/ptypes/empty"
@@ -76,6 +77,7 @@ func (s *grpcStdioServer) StreamStdio(
 		}
 
 		// Send our data to the client.
+		verifhook.Point("grpcstdio.beforeSend", uint32(len(data.Data)))
 		if err := srv.Send(&data); err != nil {
 			return err
 		}
@@ -182,6 +184,7 @@ func copyChan(log hclog.Logger, dst chan<- []byte, src io.Reader) {
 
 		// Read the data, this will block until data is available
 		n, err := bufsrc.Read(data[:])
+		verifhook.Point("grpcstdio.chunkRead", uint32(n))
 
 		// We have to check if we have data BEFORE err != nil. The bufio
 		// docs guarantee n == 0 on EOF but its better to be safe here.
